@@ -35,7 +35,7 @@ MembersPunct == <<S("str", "a.b"), S("str", "x y"), S("str", "[z]")>>
 (* ---- the path vocabulary of a document ---- *)
 StrKeysOf(d) == UNION {{d[i].keys[j].v : j \in {x \in 1..Len(d[i].keys) : d[i].keys[x].t = "str"}} : i \in 1..Len(d)}
 IntKeysOf(d) == UNION {{d[i].keys[j].v : j \in {x \in 1..Len(d[i].keys) : d[i].keys[x].t = "int"}} : i \in 1..Len(d)}
-MemberTexts(d) == {d[i].v : i \in {x \in 1..Len(d) : d[x].k = "s" /\ d[x].par # 0 /\ d[d[x].par].k = "set" /\ d[x].t = "str"}}
+MemberTexts(d) == {d[i].v : i \in {x \in 1..Len(d) : d[x].k = "s" /\ d[x].par # 0 /\ d[d[x].par].k = "set" /\ d[x].t \in {"str", "int"}}}
 ScalarTexts(d) == {d[i].v : i \in {x \in 1..Len(d) : d[x].k = "s" /\ d[x].t # "null"}}
 
 KeySegsOf(d) == {Seg("KEY", k) : k \in StrKeysOf(d) \cup IntKeysOf(d) \cup MemberTexts(d) \cup (IF Rich THEN {"zz", "0", "1", "-1", "-3", "2"} ELSE {"zz", "0", "-1", "-3"})}
